@@ -324,7 +324,7 @@ pub fn nearest_e7(d: f64) -> Option<Vec<i64>> {
     };
     Some(v.into_iter().map(|x| (sign * x) as i64).collect())
 }
-/// the class of the known finding D7: the f64 product d*1e7 is exactly a half-integer although the
+/// the class of the former defect D7 (repaired in /repo): the f64 product d*1e7 is exactly a half-integer although the
 /// exact product is not (double rounding)
 pub fn near_tie_class(d: f64) -> bool {
     let p = d * 10_000_000.0;
@@ -430,8 +430,8 @@ fn chk_hdr_fields(fields: &[&str]) -> Result<(), String> {
                 let ok = v.iter().any(|x| *x == i64::from(sh.coords[k]));
                 let sat = v.iter().all(|x| *x > i64::from(i32::MAX)) && sh.coords[k] == i32::MAX || v.iter().all(|x| *x < i64::from(i32::MIN)) && sh.coords[k] == i32::MIN;
                 if !ok && !sat {
-                    // the recorded defect D7 is precisely: the f64 product is an exact half and is rounded away from zero;
-                    // any other value at such an input is a different failure
+                    // the former defect D7 (repaired): the f64 product is an exact half and is rounded away from zero;
+                    // labelled so that its return is recognisable, it is a violation like any other
                     if near_tie_class(*c) && i64::from(sh.coords[k]) == (*c * 10_000_000.0).round() as i64 {
                         return Err(format!("NEARTIE coordinate {c:e} stored as {} but the nearest multiple of 1e-7 is {:?} (double rounding at a half-step tie)", sh.coords[k], v));
                     }
